@@ -147,6 +147,11 @@ def case_full(case):
             if k in tr:
                 out[k] = [bool(tr[k].get(v)) for v in x]
         out["sub_symbols"] = [s_["symbols"] for s_ in tr.get("sub_systems", [])]
+        if "verdict0" in out and case.get("poly", True):
+            try:
+                out["poly_cases"] = poly_cases(indict, marker, x, out["verdict0"], x)
+            except Exception as e:
+                out["poly_error"] = type(e).__name__ + ": " + str(e)[:120]
         # ---- values at a random point
         rng = random.Random(case.get("pt_seed", 1))
         A, b, c = sysd["A"], sysd["b"], sysd["c"]
@@ -663,3 +668,87 @@ def case_dict(case):
                         except Exception:
                             pass
     return {"problems": problems, "n_solvers": len(res), "kinds": [s.get("solver") for s in res], "nvars": len(allvars)}
+
+
+class _NotPoly(Exception):
+    pass
+
+
+def sympy_to_poly(e, idx):
+    """unevaluated SymPy tree (Laurent-polynomial grammar) -> model Expr JSON; raises _NotPoly otherwise"""
+    import sympy
+    from fractions import Fraction
+    if e.is_Symbol:
+        return {"sym": [idx(e), 1]}
+    if e.is_Rational:
+        return {"num": "%d/%d" % (e.p, e.q)}
+    if e.is_Float:
+        f = Fraction(float(e))
+        return {"num": "%d/%d" % (f.numerator, f.denominator)}
+    if e.is_Number:
+        raise _NotPoly(str(e))
+    if e.is_Pow:
+        b, k = e.args
+        if not (k.is_Integer or (k.is_Float and float(k).is_integer())):
+            raise _NotPoly("non-integer power")
+        k = int(k)
+        if b.is_Symbol:
+            return {"sym": [idx(b), k]}
+        if k >= 0:
+            return {"pow": [sympy_to_poly(b, idx), k]}
+        # negative power of a product of symbol powers / numbers
+        fs = sympy.Mul.make_args(b)
+        out = None
+        for f in fs:
+            if f.is_Symbol:
+                t = {"sym": [idx(f), k]}
+            elif f.is_Pow and f.args[0].is_Symbol and f.args[1].is_Integer:
+                t = {"sym": [idx(f.args[0]), int(f.args[1]) * k]}
+            elif f.is_Rational and f != 0:
+                t = {"num": "%d/%d" % ((f.q ** -k) * (1 if f.p > 0 or k % 2 == 0 else -1), abs(f.p) ** -k)}
+            else:
+                raise _NotPoly("negative power of a sum")
+            out = t if out is None else {"mul": [out, t]}
+        return out
+    if e.is_Add or e.is_Mul:
+        key = "add" if e.is_Add else "mul"
+        args = list(e.args)
+        out = sympy_to_poly(args[0], idx)
+        for a in args[1:]:
+            out = {key: [out, sympy_to_poly(a, idx)]}
+        return out
+    raise _NotPoly(type(e).__name__)
+
+
+def poly_cases(indict, marker, x, verdict0, state_vars):
+    """for every ODE entry whose right-hand side is in the Laurent-polynomial grammar: the model payload for op
+    `poly-verdict` (built from the *unevaluated* parse of the user's text, so the spelling is kept) and the toolbox's
+    own judgement of that shape"""
+    import sympy
+    from sympy.parsing.sympy_parser import parse_expr
+    out = []
+    for d in indict["dynamics"]:
+        lhs, rhs = d["expression"].split("=")
+        lhs = lhs.strip()
+        o = lhs.count("'")
+        if o == 0:
+            continue
+        name = lhs.replace("'", "")
+        top = name + marker * (o - 1)
+        if top not in x:
+            continue
+        try:
+            e = parse_expr(rhs.strip().replace("'", marker), global_dict={"Symbol": sympy.Symbol, "Integer": sympy.Integer, "Float": sympy.Float,
+                                                                         "Rational": sympy.Rational, "e": sympy.E, "E": sympy.E, "Add": sympy.Add, "Mul": sympy.Mul, "Pow": sympy.Pow, "Function": sympy.Function}, evaluate=False)
+            syms = sorted({str(s) for s in e.free_symbols} | set(state_vars))
+            if "t" in syms or any(a == sympy.E for a in sympy.preorder_traversal(e)):
+                continue
+            pos = {s: i for i, s in enumerate(syms)}
+            tree = sympy_to_poly(e, lambda s: pos[str(s)])
+            out.append({"payload": {"n": len(syms), "is_var": [s in state_vars for s in syms], "expr": tree}, "var": top,
+                        "real_lin": bool(verdict0[x.index(top)]), "rhs": rhs.strip()})
+        except _NotPoly:
+            continue
+        except Exception as ex:
+            out.append({"bridge_error": type(ex).__name__ + ": " + str(ex)[:100], "rhs": rhs.strip()})
+    return out
